@@ -260,6 +260,13 @@ func mutate(r *hx.Rng, b []byte) []byte {
 	return b
 }
 
+func minInt(a, b int) int {
+	if a < b {
+		return a
+	}
+	return b
+}
+
 func genC12(r *hx.Rng, tier string, w io.Writer) {
 	n := 400
 	if tier == "thorough" {
@@ -317,6 +324,41 @@ func genC12(r *hx.Rng, tier string, w io.Writer) {
 		sdb, _ = sd.MarshalBinary()
 		fmt.Fprintf(w, "enc-sd %s sig=%s %s\n", dataArgs(&d), hx.Hex(sd.Signature), showSigner(&sd.Signer))
 		_ = pk
+		// wire forms the node's own encoder never produces: a signer with an address but no public key
+		if i%4 == 0 {
+			hp := sh.Header.ToProto()
+			raw, _ := proto.Marshal(&pb.SignedHeader{Header: hp, Signature: r.Bytes(64), Signer: &pb.Signer{Address: addr}})
+			fmt.Fprintf(w, "dec-sh b=%s keyok=0\n", hx.Hex(raw))
+			raw2, _ := proto.Marshal(&pb.SignedData{Data: d.ToProto(), Signature: r.Bytes(64), Signer: &pb.Signer{Address: addr}})
+			fmt.Fprintf(w, "dec-sd b=%s keyok=0\n", hx.Hex(raw2))
+		}
+		// batch-cursor list codec (block/manager.go convertBatchDataToBytes / bytesToBatchData)
+		{
+			var l [][]byte
+			for k := 0; k < r.Intn(4); k++ {
+				l = append(l, rbytes(r, 0, 1, 5, 40))
+			}
+			fmt.Fprintf(w, "bd-enc list=%s\n", hx.HexList(l))
+			enc := block.VerifBatchDataToBytes(l)
+			switch r.Intn(5) {
+			case 0:
+			case 1:
+				if len(enc) > 0 {
+					enc = enc[:len(enc)-1-r.Intn(minInt(len(enc), 8))]
+				}
+			case 2:
+				enc = mutate(r, enc)
+			case 3:
+				enc = r.Bytes(r.Intn(12))
+			default:
+				if len(enc) > 3 {
+					enc[r.Intn(4)] ^= byte(1 << uint(r.Intn(8)))
+				}
+			}
+			if len(enc) < 3000 {
+				fmt.Fprintf(w, "bd-dec b=%s\n", hx.Hex(enc))
+			}
+		}
 		// decoders: valid bytes, mutated bytes, wrong message type
 		srcs := map[string][]byte{"header": hb, "meta": mb, "data": db, "sh": shb, "sd": sdb}
 		for _, dec := range []string{"header", "meta", "data", "sh", "sd"} {
@@ -565,6 +607,30 @@ func runC12(c *hx.Ctx) {
 					c.Report("C12/decode-not-canonical/signeddata", hx.Hex(b))
 				}
 				return fmt.Sprintf("ok %s sig=%s %s re=%s dac=%s", showData(&sd.Data), hx.Hex(sd.Signature), showSigner(&sd.Signer), hx.Hex(re), hx.Hex(sd.Data.DACommitment()))
+			}))
+		case "bd-enc":
+			l := o.List("list")
+			c.Emit("%s", guard(c, "bd-enc", func() string {
+				b := block.VerifBatchDataToBytes(l)
+				back, err := block.VerifBytesToBatchData(b)
+				if err != nil || hx.HexList(back) != hx.HexList(l) {
+					c.Report("C12/roundtrip/batch-data/differs", hx.HexList(l))
+				}
+				return "bytes=" + hx.Hex(b)
+			}))
+		case "bd-dec":
+			b := o.Bytes("b")
+			c.Emit("%s", guard(c, "bd-dec", func() string {
+				// the blob is a view into a larger buffer: reading past its end must not go unnoticed
+				buf := append(append([]byte(nil), b...), 0xAA, 0xBB, 0xCC, 0xDD, 0xEE, 0xFF, 0x11, 0x22)[:len(b)]
+				l, err := block.VerifBytesToBatchData(buf)
+				if err != nil {
+					return "err"
+				}
+				if re := block.VerifBatchDataToBytes(l); !bytes.Equal(re, b) {
+					c.Report("C12/decode-not-canonical/batch-data", hx.Hex(b))
+				}
+				return "ok list=" + hx.HexList(l)
 			}))
 		default:
 			c.Emit("bad-op")
